@@ -93,9 +93,9 @@ theorem no_fuel_exhaustion (cls : Classes) (sw : Switches) (hsw : sw.attrsLoopFa
   · exact parseRec_ne_outOfFuel cls sw hsw 5 _
 
 /-- the loaders never hang either -/
-theorem loaders_terminate (cls : Classes) (sw : Switches) (hsw : sw.attrsLoopFailsOnNoMatch = true)
-    (xml : List Char) :
-    requestFromXmlL cls sw xml ≠ .hang ∧ responseFromXmlL cls sw xml ≠ .hang := by
+theorem loaders_terminate (cls : Classes) (sw : Switches) (gs : GlueSwitches)
+    (hsw : sw.attrsLoopFailsOnNoMatch = true) (xml : List Char) :
+    requestFromXmlL cls sw gs xml ≠ .hang ∧ responseFromXmlL cls sw gs xml ≠ .hang := by
   have h := (no_fuel_exhaustion cls sw hsw).2.2.2 xml
   unfold requestFromXmlL responseFromXmlL fromXmlWith
   constructor
@@ -143,9 +143,9 @@ theorem parseAttrs_diverges_py (sw : Switches) (hsw : sw.attrsLoopFailsOnNoMatch
   parseAttrs_diverges pyClasses sw hsw (by decide +kernel) (by decide +kernel)
 
 /-- … and so the whole document `<KSR id='foo'></KSR>` of DESIGN §5 F1 never loads -/
-theorem parse_diverges_py (sw : Switches) (hsw : sw.attrsLoopFailsOnNoMatch = false) :
+theorem parse_diverges_py (sw : Switches) (gs : GlueSwitches) (hsw : sw.attrsLoopFailsOnNoMatch = false) :
     parseKsr pyClasses sw "<KSR id='foo'></KSR>".toList = .outOfFuel ∧
-    requestFromXmlL pyClasses sw "<KSR id='foo'></KSR>".toList = .hang := by
+    requestFromXmlL pyClasses sw gs "<KSR id='foo'></KSR>".toList = .hang := by
   have key : parseKsr pyClasses sw "<KSR id='foo'></KSR>".toList = .outOfFuel := by
     obtain ⟨a, b⟩ := sw
     simp only at hsw
@@ -203,30 +203,31 @@ theorem recursion_bound_witness (sw : Switches) :
 theorem C13_current_tree :
     if KskmGen.attrsLoopFailsOnNoMatch = true then
       (∀ xml, parseKsr pyClasses pySwitches xml ≠ .outOfFuel) ∧
-      (∀ xml, requestFromXmlL pyClasses pySwitches xml ≠ .hang ∧ responseFromXmlL pyClasses pySwitches xml ≠ .hang)
+      (∀ xml, requestFromXmlL pyClasses pySwitches pyGlueSwitches xml ≠ .hang ∧
+        responseFromXmlL pyClasses pySwitches pyGlueSwitches xml ≠ .hang)
     else
       (∀ fuel, parseAttrs pyClasses pySwitches fuel "id='foo'".toList [] = .outOfFuel) ∧
-      requestFromXmlL pyClasses pySwitches "<KSR id='foo'></KSR>".toList = .hang := by
+      requestFromXmlL pyClasses pySwitches pyGlueSwitches "<KSR id='foo'></KSR>".toList = .hang := by
   cases h : KskmGen.attrsLoopFailsOnNoMatch with
   | true =>
     have hsw : pySwitches.attrsLoopFailsOnNoMatch = true := h
     simp only [↓reduceIte]
-    exact ⟨(no_fuel_exhaustion pyClasses pySwitches hsw).2.2.2, loaders_terminate pyClasses pySwitches hsw⟩
+    exact ⟨(no_fuel_exhaustion pyClasses pySwitches hsw).2.2.2, loaders_terminate pyClasses pySwitches pyGlueSwitches hsw⟩
   | false =>
     have hsw : pySwitches.attrsLoopFailsOnNoMatch = false := h
     simp only [Bool.false_eq_true, ↓reduceIte]
-    exact ⟨fun fuel => parseAttrs_diverges_py pySwitches hsw fuel [], (parse_diverges_py pySwitches hsw).2⟩
+    exact ⟨fun fuel => parseAttrs_diverges_py pySwitches hsw fuel [], (parse_diverges_py pySwitches pyGlueSwitches hsw).2⟩
 
 /-! ## 6. Load → validate composition, size gate -/
 
 /-- **All or nothing (KSR).** `load_ksr` hands back a `Request` only if the file was within the cap,
     decoded, was parsed completely into exactly that request, and `validate_request` accepted it. -/
-theorem load_all_or_nothing (cls : Classes) (sw : Switches) (verify : Verifier) (now : Int) (f : FileOracle)
-    (pol : RequestPolicy) (ro : Bool) (req : Request)
-    (h : (loadKsr cls sw verify now f pol ro).result = .done (.ok req)) :
+theorem load_all_or_nothing (cls : Classes) (sw : Switches) (gs : GlueSwitches) (verify : Verifier) (now : Int)
+    (f : FileOracle) (pol : RequestPolicy) (ro : Bool) (req : Request)
+    (h : (loadKsr cls sw gs verify now f pol ro).result = .done (.ok req)) :
     f.statSize ≤ KskmGen.maxKsrSize ∧
     ∃ xml, f.decode (f.read KskmGen.maxKsrSize) = some xml ∧
-      requestFromXmlL cls sw xml = .done (.ok req) ∧
+      requestFromXmlL cls sw gs xml = .done (.ok req) ∧
       validateRequest verify now req pol = .ok () := by
   unfold loadKsr at h
   split at h
@@ -251,12 +252,12 @@ theorem load_all_or_nothing (cls : Classes) (sw : Switches) (verify : Verifier) 
         · simp at h
 
 /-- **All or nothing (SKR)**, with `validate_response` (bundle count and every signature). -/
-theorem load_skr_all_or_nothing (cls : Classes) (sw : Switches) (verify : Verifier) (f : FileOracle)
-    (pol : ResponsePolicy) (resp : Response)
-    (h : (loadSkr cls sw verify f pol).result = .done (.ok resp)) :
+theorem load_skr_all_or_nothing (cls : Classes) (sw : Switches) (gs : GlueSwitches) (verify : Verifier)
+    (f : FileOracle) (pol : ResponsePolicy) (resp : Response)
+    (h : (loadSkr cls sw gs verify f pol).result = .done (.ok resp)) :
     f.statSize ≤ KskmGen.maxSkrSize ∧
     ∃ xml, f.decode (f.read KskmGen.maxSkrSize) = some xml ∧
-      responseFromXmlL cls sw xml = .done (.ok resp) ∧
+      responseFromXmlL cls sw gs xml = .done (.ok resp) ∧
       validateResponse verify resp pol = .ok () := by
   unfold loadSkr at h
   split at h
@@ -285,22 +286,22 @@ theorem load_skr_all_or_nothing (cls : Classes) (sw : Switches) (verify : Verifi
 
 /-- **Size gate.** A file that `fstat` reports larger than the cap is refused with `RuntimeError`, and
     `read` is not consulted: the outcome does not mention the file's content at all. -/
-theorem size_gate (cls : Classes) (sw : Switches) (verify : Verifier) (now : Int) (f : FileOracle)
-    (pol : RequestPolicy) (ro : Bool) (h : KskmGen.maxKsrSize < f.statSize) :
-    loadKsr cls sw verify now f pol ro = { result := .done (err .runtime), readCalled := false } := by
+theorem size_gate (cls : Classes) (sw : Switches) (gs : GlueSwitches) (verify : Verifier) (now : Int)
+    (f : FileOracle) (pol : RequestPolicy) (ro : Bool) (h : KskmGen.maxKsrSize < f.statSize) :
+    loadKsr cls sw gs verify now f pol ro = { result := .done (err .runtime), readCalled := false } := by
   unfold loadKsr
   simp [h]
 
-theorem size_gate_skr (cls : Classes) (sw : Switches) (verify : Verifier) (f : FileOracle)
-    (pol : ResponsePolicy) (h : KskmGen.maxSkrSize < f.statSize) :
-    loadSkr cls sw verify f pol = { result := .done (err .runtime), readCalled := false } := by
+theorem size_gate_skr (cls : Classes) (sw : Switches) (gs : GlueSwitches) (verify : Verifier)
+    (f : FileOracle) (pol : ResponsePolicy) (h : KskmGen.maxSkrSize < f.statSize) :
+    loadSkr cls sw gs verify f pol = { result := .done (err .runtime), readCalled := false } := by
   unfold loadSkr
   simp [h]
 
 /-- conversely, `read` is called once the size is within the cap, and asks for at most the cap -/
-theorem size_gate_reads_within_cap (cls : Classes) (sw : Switches) (verify : Verifier) (now : Int)
-    (f : FileOracle) (pol : RequestPolicy) (ro : Bool) (h : f.statSize ≤ KskmGen.maxKsrSize) :
-    (loadKsr cls sw verify now f pol ro).readCalled = true := by
+theorem size_gate_reads_within_cap (cls : Classes) (sw : Switches) (gs : GlueSwitches) (verify : Verifier)
+    (now : Int) (f : FileOracle) (pol : RequestPolicy) (ro : Bool) (h : f.statSize ≤ KskmGen.maxKsrSize) :
+    (loadKsr cls sw gs verify now f pol ro).readCalled = true := by
   unfold loadKsr
   have : ¬ f.statSize > KskmGen.maxKsrSize := by omega
   simp [this]
@@ -360,9 +361,9 @@ example : parseAttrs pyClasses ⟨true, true⟩ 20 "id=\"foo\" domain=\".\"".toL
 example : parseAttrs pyClasses ⟨true, true⟩ 9 "id='foo'".toList [] = .err .value := by decide +kernel
 
 /-- a file oracle over the cap -/
-example : (loadKsr pyClasses ⟨true, true⟩ (fun _ _ _ _ => .unknown) 0
+example : (loadKsr pyClasses ⟨true, true⟩ ⟨true, true⟩ (fun _ _ _ _ => .unknown) 0
     { statSize := 2 ^ 20 + 1, read := fun _ => [], decode := fun _ => none } KskmGen.requestPolicyDefaults).readCalled
     = false := by
-  rw [size_gate _ _ _ _ _ _ _ (by decide)]
+  rw [size_gate _ _ _ _ _ _ _ _ (by decide)]
 
 end Kskm.C13
